@@ -1,5 +1,6 @@
 import NeumannModel.Common.Proto
 import NeumannModel.RelTx.Model
+import NeumannModel.RelTx.RaceModel
 /-
   Line-protocol driver for the relational transaction model (C09).  Stateful.
   Row ids on the wire are ENGINE ids (slab id + 1); transaction ids are the model's own
@@ -101,6 +102,12 @@ def showRows (rs : List (Nat × List Val)) : String :=
 
 def sortNats (xs : List Nat) : List Nat := xs.mergeSort (fun a b => a ≤ b)
 
+/-- driver state: the model state plus, per transaction, the scan its pending `tx_update` / `tx_delete`
+    has made (the first half of a statement whose second half has not run yet) -/
+structure DState where
+  s : State
+  scans : Nat → List (Nat × List Val)
+
 def relStep (s : State) (line : String) : State × String :=
   let bad := (s, "bad-op")
   let fin := fun (bump : Nat) (r : State × Res) => (r.1, showRes bump r.2)
@@ -175,4 +182,56 @@ def relStep (s : State) (line : String) : State × String :=
   | ["nlocks"] => (s, s!"n {((allKeys s).filter fun k => (s.locks k.1 k.2).isSome).length}")
   | _ => bad
 
-def main : IO Unit := run relStep (init 30000 60000)
+/-- the split statements (two halves with other statements in between; `RaceModel.lean`):
+      scan_update <tx> <t> <cond> <upd>     scan <id:v.v;...> | err <class>     first half of tx_update
+      apply_update <tx> <t> <upd>           ok <n> | err lock_conflict | err storage     second half, AS THE CODE IS
+      scan_delete <tx> <t> <cond>           scan <rows> | err <class>
+      apply_delete <tx> <t>                 ok <n> | err lock_conflict
+      apply_update_fixed <tx> <t> <cond> <upd> | apply_delete_fixed <tx> <t> <cond>
+                                            second half WITH the proposed repair (rows re-read under the locks)
+    every other line goes to `relStep` -/
+def raceStep (d : DState) (line : String) : DState × String :=
+  let bad := (d, "bad-op")
+  let firstHalf := fun (tx t : Nat) (c : Cond) (u : Option (List (Nat × Val))) =>
+    match gate d.s tx with
+    | some e => (d, "err " ++ showErr e)
+    | none =>
+      match d.s.tables t with
+      | none => (d, "err table_not_found")
+      | some T =>
+        match u with
+        | some upd =>
+          if updBad T upd then (d, "err " ++ showErr (updErr T upd))
+          else ({ d with scans := fun k => if k = tx then txScan T c else d.scans k }, "scan " ++ showRows (txScan T c))
+        | none => ({ d with scans := fun k => if k = tx then txScan T c else d.scans k }, "scan " ++ showRows (txScan T c))
+  match words line with
+  | ["scan_update", tx, t, c, u] => match tx.toNat?, t.toNat?, parseCond c, parseUpd u with
+    | some tx, some t, some c, some u => firstHalf tx t c (some u) | _, _, _, _ => bad
+  | ["scan_delete", tx, t, c] => match tx.toNat?, t.toNat?, parseCond c with
+    | some tx, some t, some c => firstHalf tx t c none | _, _, _ => bad
+  | ["apply_update", tx, t, u] => match tx.toNat?, t.toNat?, parseUpd u with
+    | some tx, some t, some u =>
+      (match txUpdateApplyStale d.s tx t (d.scans tx) u with
+        | (s', none) => ({ d with s := s' }, "err lock_conflict")
+        | (s', some none) => ({ d with s := s' }, "err storage")
+        | (s', some (some n)) => ({ d with s := s' }, s!"ok {n}"))
+    | _, _, _ => bad
+  | ["apply_update_fixed", tx, t, c, u] => match tx.toNat?, t.toNat?, parseCond c, parseUpd u with
+    | some tx, some t, some c, some u =>
+      let r := txUpdateApplyFixed d.s tx t c ((d.scans tx).map (·.1)) u
+      ({ d with s := r.1 }, showRes 0 r.2)
+    | _, _, _, _ => bad
+  | ["apply_delete_fixed", tx, t, c] => match tx.toNat?, t.toNat?, parseCond c with
+    | some tx, some t, some c =>
+      let r := txDeleteApplyFixed d.s tx t c ((d.scans tx).map (·.1))
+      ({ d with s := r.1 }, showRes 0 r.2)
+    | _, _, _ => bad
+  | ["apply_delete", tx, t] => match tx.toNat?, t.toNat? with
+    | some tx, some t =>
+      (match txDeleteApplyStale d.s tx t (d.scans tx) with
+        | (s', none) => ({ d with s := s' }, "err lock_conflict")
+        | (s', some n) => ({ d with s := s' }, s!"ok {n}"))
+    | _, _ => bad
+  | _ => let r := relStep d.s line; ({ d with s := r.1 }, r.2)
+
+def main : IO Unit := run raceStep { s := init 30000 60000, scans := fun _ => [] }
